@@ -14,6 +14,8 @@ pub enum Op {
     CloneOp,
     Reset(u8),
     FinReset(u8),
+    /// FixedOutput::finalize_fixed_reset: finalises in place (no clone) and resets
+    FinFixedReset(u8),
     Fin(u8),
 }
 
@@ -29,6 +31,7 @@ fn op_json<H: HK>(o: &Op) -> Value {
         Op::CloneOp => json!({"op":"clone"}),
         Op::Reset(i) => json!({"op":"reset","inst":i}),
         Op::FinReset(i) => json!({"op":"finalize_reset","inst":i}),
+        Op::FinFixedReset(i) => json!({"op":"finalize_fixed_reset","inst":i}),
         Op::Fin(i) => json!({"op":"finalize","inst":i}),
     }
 }
@@ -114,6 +117,13 @@ fn exec<H: HK>(or: &Oracle<H>, ops: &[Op], final_check: bool) -> Result<u32, (St
                 check("finalize_reset", &got, &it.m)?;
                 it.m = MSt { line: it.m.line, fork: None, len: 0 };
             }
+            Op::FinFixedReset(i) => {
+                let it = inst[i as usize].as_mut().unwrap();
+                let got = digest::FixedOutput::finalize_fixed_reset(&mut it.d).to_vec();
+                checks += 1;
+                check("finalize_fixed_reset", &got, &it.m)?;
+                it.m = MSt { line: it.m.line, fork: None, len: 0 };
+            }
             Op::Fin(i) => {
                 let it = inst[i as usize].take().unwrap();
                 let got = it.d.finalize().to_vec();
@@ -151,6 +161,7 @@ fn menu(live: [bool; 2], nl: usize, have_clone_budget: bool) -> Vec<Op> {
         if live[i as usize] {
             v.push(Op::Reset(i));
             v.push(Op::FinReset(i));
+            v.push(Op::FinFixedReset(i));
             v.push(Op::Fin(i));
         }
     }
@@ -248,8 +259,8 @@ fn run_one<H: HK>(rep: &mut Report, depth: usize, two_piece_max: usize) {
 
 pub fn run(tier: &str, config: &str) -> Report {
     let mut rep = Report::new("C08", tier, config);
-    let depth: usize = std::env::var("VH_DEPTH").ok().and_then(|s| s.parse().ok()).unwrap_or(if tier == "thorough" { 5 } else { 4 });
-    rep.rule = format!("every valid history of {} operations over {{update(inst, l): l in {{0,1,B-1,B,B+1,2B,2B+1,3B+5}}, clone (once; afterwards both instances are driven), reset, finalize_reset, finalize}} with <= 2 live instances, executed from scratch on the real hasher (no state merging); the clone absorbs a different byte line after the fork point; at every finalize*/end of history the digest is compared with the one-shot digest of the same implementation and with vref; plus every two-piece split (a,b) with a+b <= 3B+1. `states` = distinct model states (byte line, fork point, length) at which digests were compared, `transitions` = operations executed.", depth);
+    let depth: usize = std::env::var("VH_DEPTH").ok().and_then(|s| s.parse().ok()).unwrap_or(if tier == "thorough" { 6 } else { 5 });
+    rep.rule = format!("every valid history of {} operations over {{update(inst, l): l in {{0,1,B-1,B,B+1,2B,2B+1,3B+5}}, clone (once; afterwards both instances are driven), reset, Digest::finalize_reset, FixedOutput::finalize_fixed_reset (in place), finalize}} with <= 2 live instances, executed from scratch on the real hasher (no state merging); the clone absorbs a different byte line after the fork point; at every finalize*/end of history the digest is compared with the one-shot digest of the same implementation and with vref; plus every two-piece split (a,b) with a+b <= 3B+1. `states` = distinct model states (byte line, fork point, length) at which digests were compared, `transitions` = operations executed.", depth);
     macro_rules! go { ($k:ty) => { run_one::<$k>(&mut rep, depth, 3 * <$k as HK>::BLOCK + 1); }; }
     go!(KBlake224); go!(KBlake256); go!(KBlake384); go!(KBlake512);
     go!(KGroestl224); go!(KGroestl256); go!(KGroestl384); go!(KGroestl512);
